@@ -65,7 +65,7 @@ func runC20(c *Ctx) {
 	info := c.P.Pkgs["model"].TypesInfo
 
 	// ------------------------------------------------------------------ R1
-	c.Rule("C20-R1", "the BPE byte→rune table (switch in BytePairEncoding.Encode, or in a function it hands each byte to) and rune→byte table (switch in Decode, or in a function it hands each rune to and whose "skip" answer it obeys), extracted as piecewise-affine maps by finite-domain abstract interpretation, compose to the identity on every byte 0x01–0xFF; the byte→rune map is injective; no mapped rune is white space or a control character (0x00–0x20, 0x7F–0xA0, 0xAD), so the pre-tokeniser cannot split inside a remapped byte; the decoder's result fits a byte")
+	c.Rule("C20-R1", "the BPE byte→rune table (switch in BytePairEncoding.Encode, or in a function it hands each byte to) and rune→byte table (switch in Decode, or in a function it hands each rune to and whose skip answer it obeys), extracted as piecewise-affine maps by finite-domain abstract interpretation, compose to the identity on every byte 0x01–0xFF; the byte→rune map is injective; no mapped rune is white space or a control character (0x00–0x20, 0x7F–0xA0, 0xAD), so the pre-tokeniser cannot split inside a remapped byte; the decoder's result fits a byte")
 	fe, fd := c.Fn("C20-R1", "model", "BytePairEncoding.Encode"), c.Fn("C20-R1", "model", "BytePairEncoding.Decode")
 	if fe != nil && fd != nil {
 		// the table sits in the codec function or in a function of the package it calls (one level)
